@@ -38,8 +38,29 @@ def _gct_functions(P: Project) -> List[FunctionInfo]:
     return out
 
 
-def _out_stores(fn: ast.AST) -> List[ast.Assign]:
+_SYNTH: Dict[int, tuple] = {}   # id(fn) -> (fn, stores): holding fn keeps its id from being reused
+
+
+def _out_stores(fn: ast.AST, P: Optional[Project] = None) -> List[ast.Assign]:
     rets = [r.value.id for r in returns_of(fn) if isinstance(r.value, ast.Name)]
+    comps = [r.value for r in returns_of(fn) if isinstance(r.value, ast.DictComp) and len(r.value.generators) == 1 and not r.value.generators[0].ifs]
+    if comps and not rets and P is not None:
+        # `return {k: v for t in it}` is `out = {}; for t in it: out[k] = v; return out`: the loop form is synthesised (and hung
+        # into the project's parent map under the function) so that the store-based reading below applies to both spellings
+        if id(fn) not in _SYNTH or _SYNTH[id(fn)][0] is not fn:
+            c = comps[0]
+            g = c.generators[0]
+            asg = ast.Assign(targets=[ast.Subscript(value=ast.Name(id="out", ctx=ast.Load()), slice=c.key, ctx=ast.Store())], value=c.value)
+            loop = ast.For(target=g.target, iter=g.iter, body=[asg], orelse=[])
+            for n in (asg, loop):
+                ast.copy_location(n, c)
+            ast.fix_missing_locations(loop)
+            P.parents[id(loop)] = fn
+            for n in ast.walk(loop):
+                for ch in ast.iter_child_nodes(n):
+                    P.parents[id(ch)] = n
+            _SYNTH[id(fn)] = (fn, [asg])
+        return list(_SYNTH[id(fn)][1])
     out = []
     for st in walk_no_nested(fn):
         if isinstance(st, ast.Assign) and len(st.targets) == 1 and isinstance(st.targets[0], ast.Subscript) \
@@ -81,7 +102,7 @@ def r1(ctx):
     for f in fns:
         fn = f.node
         factors = param_names(fn)[1]
-        stores = _out_stores(fn)
+        stores = _out_stores(fn, P)
         if not stores:
             raise AnalysisError(f"C02.R1: no stores into the result dict in {f.qualname}")
         names_def = [(n, v, st) for n, v, st in assignments(fn) if isinstance(v, ast.ListComp) and "join" in norm(v)]
@@ -187,7 +208,7 @@ def r1(ctx):
 def r2(ctx):
     P = ctx.project
     for f in _gct_functions(P):
-        for st in _out_stores(f.node):
+        for st in _out_stores(f.node, P):
             ctx.look()
             v = st.value
 
